@@ -1571,16 +1571,22 @@ def check(run):
         grow_dis = []
         grow_cmp += judge_grow(c, r, model[gi] if model is not None else None, run.violations, grow_dis, stats, mode)
         dis.extend(grow_dis)
+        for s in c["queries"]:
+            fl = s["q"] + s["att"] + s.get("att2", []) + s["comp"]
+            run.count({"pop": [o["key"] for o in c["pop"]], "spec": [s["q"], s["att"], s.get("att2"), s["comp"], s["wrap"], s.get("fset")]},
+                      nontrivial=bool(c["pop"]) and bool(fl))
+        g = c.get("grow")
+        if g and r.get("grow"):
+            for si, cut in enumerate(g["steps"]):
+                for spec in g["queries"]:
+                    run.count({"pop": [o["key"] for o in c["pop"]], "grow": [g["order"], g["steps"], si, spec["q"]]},
+                              nontrivial=cut > 0)
     run.coverage["growing_store_comparisons"] = grow_cmp
     if grow_cmp and any(d.get("route", "").startswith("grow") for d in dis) and not any(
             b.kind == "correspondence" and b.name.startswith("Model/Filters.v") for b in run.broken):
         gd = [d for d in dis if d.get("route", "").startswith("grow")]
         run.broken.append(Broken("correspondence", "Model/Filters.v vs stix2.datastore on growing stores (%d disagreements)" % len(gd),
                                  {"first": gd[:3]}))
-        for s in c["queries"]:
-            fl = s["q"] + s["att"] + s["comp"]
-            run.count({"pop": [o["key"] for o in c["pop"]], "spec": [s["q"], s["att"], s["comp"], s["wrap"]]},
-                      nontrivial=bool(c["pop"]) and bool(fl))
     # the witnesses of the defective variants are failing inputs themselves
     def wit(qi, route, expect, what, fid):
         run.violations.append(Violation(what, {"kind": "query", "pop": WITNESS["pop"], "split": 0, "spec": WITNESS["queries"][qi],
